@@ -778,6 +778,7 @@ func main() {
 	c.Rule += " Shared controller: three XRs of the kind served in turn by ONE reconciler (one fetcher, one publisher); only some composed resources have published a connection secret; each XR secret holds only its own resource's values. A claim with the bound claim's name in another namespace referencing the XR gets no secret and does not rebind it. Provenance cases (both composers): XR details derived from the composed resources' connection secrets; a referenced resource is re-parented in place or recreated by another owner behind the XR controller's lagging cache and points at that owner's secret; neither the XR's nor the claim's secret may hold that owner's values."
 	c.Rule += " " + "The shared reconciler also serves an XR of an edited composition (secret keys of its own revision only)."
 	c.Rule += " " + "A foreign-controlled XR secret may appear behind the controllers' Secret cache."
+	c.Rule += " " + "A claim reconcile over a stale Secret cache (no rewrite gets through); rotating details republished right after the claim's copy."
 	c.Assumptions = []string{"sim stores typed Secrets as their JSON (base64 data)", "reference extraction follows the ConnectionDetail API documentation"}
 	c.Floor = 100
 	n := c.N(1200, 20000)
